@@ -65,6 +65,7 @@ type FuncSpec struct {
 	Impure      []string // function values (as written at the call) whose calls may have any side effect
 	ImpureMods  map[string][]string // optional: the locations such a call may modify (assumed)
 	AtReturn    []AtStmt // ghost assignments executed at every return
+	AtEntry     []AtStmt // ghost assignments executed at entry
 	PureHeap    bool     // pure, but the result depends on the (mutable) state of the objects passed: only comparable within one heap version
 	Prune       bool     // drop branches whose path condition is unsatisfiable (they are not translated)
 	AbstractFP  bool     // float64 + - * / as uninterpreted functions (formula identity only)
@@ -474,6 +475,21 @@ func (cs *Contracts) parseFile(fset *token.FileSet, f *ast.File, pkgPath string)
 				continue
 			}
 			head := strings.Fields(rest[:j])
+			if len(head) == 1 && head[0] == "entry" {
+				// at entry: ghost <var | x.ghostfield> = E   (executed once, after the precondition)
+				w, r2 := splitWord(rest[j+1:])
+				e := strings.Index(r2, "=")
+				if w != "ghost" || e < 0 {
+					cs.errf(loc, "expected 'at entry: ghost x = E'")
+					continue
+				}
+				c, ok := mkClause(strings.TrimSpace(r2[e+1:]), loc)
+				if !ok {
+					continue
+				}
+				cur.AtEntry = append(cur.AtEntry, AtStmt{Kind: "ghost", Target: strings.TrimSpace(r2[:e]), C: c})
+				continue
+			}
 			if len(head) == 1 && head[0] == "return" {
 				// at return: ghost <var | x.ghostfield> = E   (executed at every return, results bound)
 				w, r2 := splitWord(rest[j+1:])
